@@ -55,7 +55,7 @@ TEXT = {
          'timed out / ran a select; successor must see initial values, run the initialiser, get Timeout (not Canceled, not early) from a fresh park, no inherited cancel; thread fallback per thread; drops exactly once Additions: predecessors = residue x ending (incl. a cancel taken by wait_io, user panic), successors\' first blocking call varies (timed park, plain unpark, contended lock), leaked local storage reported as such.',
          'runtime monitoring: ownership/initialiser/drop monitors + fresh-start probes under hook-stall sweeps; ASan'),
  'C16': ('one-shot select arms fired simultaneously or staggered, poll loops with repeated events, 2-3 ms poll time-outs, panicking arms, removed selectors, early scope exit; per arm tops/bottoms/delivered counts, '
-         'bottom never before/without/twice, Finished only after all arms ended, Timeout never early, panic payload reaches the poller, nothing alive after the scope Additions: forever mode (poll(None) beside a silent live arm: only the wake-up of the panicking arm\'s final event ends it), directed shards over CQ_ windows incl. the count/registration window (D30), no-hook stress (cqrace). A removed arm followed by the real panic of another arm; a guard among each arm's captures that must find the enclosing frame alive (D37).',
+         'bottom never before/without/twice, Finished only after all arms ended, Timeout never early, panic payload reaches the poller, nothing alive after the scope Additions: forever mode (poll(None) beside a silent live arm: only the wake-up of the panicking arm\'s final event ends it), directed shards over CQ_ windows incl. the count/registration window (D30), no-hook stress (cqrace). A removed arm followed by the real panic of another arm; a guard among the captures of each arm that must find the enclosing frame alive (D37).',
          'runtime monitoring: per-arm event accounting under hook-stall sweeps; ASan'),
  'C17': ('real sockets and real epoll: unix-stream and loopback TCP (v4/v6) one-way transfers and accept/connect/echo with split read/write halves, 0..600 KB payloads, random chunking incl. write_vectored, '
          'random buffer sizes, small SO_SNDBUF, coroutine and thread callers; UDP/unix datagram boundaries; stream equality, EOF only at end, stranded I/O judged with the kernel view (poll/FIONREAD); probe of known finding D14 Additions: descriptor churn (sessions closing and opening sockets at once, refused connects; descriptor numbers reused across threads), the shapes of may\'s own unix-socket tests, 16-worker shards in the thorough tier. split() full duplex, peek, CoIo, wait_io (ioext); readiness while the workers are saturated by yielders (yieldspinio); timer-list contract monitor (an io timer entry is unlinked by its selector thread only, D36).',
